@@ -193,8 +193,14 @@ CHECKS["C17"] = {
     "design_ref": "DESIGN.md §4 C17",
 }
 CHECKS["C01"] = {
-    "technique": "Lean 4 proof over M-Pratt (the precedence-climbing loop, for every operator table and every expression tree; the table of the current source is regenerated from parser.rs and proved order-isomorphic to ECMA-262's), M-Lib (relative-index arithmetic of the array/string built-ins for all lists and all arguments), M-Ops (ECMAScript operators and coercions on primitives) and M-Ctl (completion-record semantics of blocks, loops, labels, switch, try/catch/finally, temporal dead zone) + correspondence of both models with tsrun on exhaustive operand cross products and Lean-generated programs + differential against a reference engine (node, or golden outputs recorded from it) over operators x operand shapes, the built-in library and feature programs + reference-free equivalence of spellings",
-    "text": "parse_minimal_parens / parse_wellformed (for every operator table and every expression tree of any size, the Pratt loop recovers the tree from its minimally parenthesised token list), parse_order_iso (the parse depends on the table only through the order of its numbers and the associativity flags), "
+    "technique": "Lean 4 proof over M-Compile (the expression/statement compiler with its register allocator and jump patching, and the register VM: for every expression and statement of the modelled core, the emitted code computes what ECMAScript's evaluation order prescribes - value, side effects, thrown error - and the compiler refuses exactly when the construct's register demand exceeds 255; the model's instruction listing is compared with Compiler::compile_statement's on every run), M-Pratt (the precedence-climbing loop, for every operator table and every expression tree; the table of the current source is regenerated from parser.rs and proved order-isomorphic to ECMA-262's), M-Lib (relative-index arithmetic of the array/string built-ins for all lists and all arguments), M-Ops (ECMAScript operators and coercions on primitives) and M-Ctl (completion-record semantics of blocks, loops, labels, switch, try/catch/finally, temporal dead zone) + correspondence of both models with tsrun on exhaustive operand cross products and Lean-generated programs + differential against a reference engine (node, or golden outputs recorded from it) over operators x operand shapes, the built-in library and feature programs + reference-free equivalence of spellings",
+    "text": "M-Compile: compileE_eq / compileS_eq / compileProgram_eq (the compiler as written - RegisterAllocator alloc/free, emit_jump placeholders, patch_jump - emits exactly the structured code codeE / codeS and restores the allocator: stack discipline), "
+            "codeE_ok / codeS_ok / compileE_correct / program_completes / program_throws (for every value domain and operator semantics, every expression - literals, variables, unary, binary, && || ??, ?:, comma, =, op=, &&= ||= ??=, ++/-- - and every statement - expression, if, while, do-while, block - of any size, "
+            "any initial registers and environment: the VM running the emitted code ends with the value in the destination register, the environment the reference semantics prescribes (left-to-right operands, target read before the right-hand side of a compound assignment, short-circuit forms evaluate and assign only when needed), "
+            "every live register of the enclosing constructs untouched, or throws the same error after the same side effects; loops by induction on the iteration count), run_unique (the outcome does not depend on the fuel), "
+            "program_refused_iff / codeE_isSome_iff / rightNested_limit / leftNested_limit (a statement is refused exactly when its register demand needS exceeds 255: 127 right-nested or 253 left-nested additions compile, one more does not) are Lean theorems; "
+            "on every run the model's listing (instructions, registers, jump targets, constants, register count) is compared with the real compiler's on 1.6k (quick) / 6k (thorough) generated statements including the register-exhaustion boundaries, and the variables 2k / 8k statements leave behind (or the error they throw, and the side effects before it) with the reference engine and tsrun. "
+            "parse_minimal_parens / parse_wellformed (for every operator table and every expression tree of any size, the Pratt loop recovers the tree from its minimally parenthesised token list), parse_order_iso (the parse depends on the table only through the order of its numbers and the associativity flags), "
             "table_is_spec + gen_parses_as_spec (the 25-row table, the break test, the next_prec rule, the logical-operator mapping and the prefix operators regenerated from src/parser.rs by bin/extract parse EVERY token list exactly as ECMA-262's nesting of productions does) are Lean theorems; "
             "the model with the regenerated table is compared with the real parser on all 625 operator pairs and 3000 (quick) / 40000 (thorough) random and malformed token lists, the real parser with the model under the specification's table, and every text with its fully parenthesised tree by evaluation. "
             "M-Coerce: toPrim_exclusive / string_hint_toString_first / number_hint_valueOf_first / calls_at_most_once / both_left_first / strict_never_converts / nullish_eq_no_convert / prim_passthrough (ToPrimitive and every operator over object operands: which "
